@@ -113,6 +113,13 @@ impl PupRelation {
 
         // Returns a `Relation::Map` with the right field names and with `COUNT(DISTINCT PID) > tau`
         let tau = dp_event::gaussian_tau(epsilon, delta, max_privacy_unit_groups as f64);
+        #[cfg(qrlew_verif)]
+        crate::verif::event(|| {
+            format!(
+                "{{\"ev\":\"tau_thresholding\",\"epsilon\":{:e},\"delta\":{:e},\"max_groups\":{},\"sigma\":{:e},\"tau\":{:e}}}",
+                epsilon, delta, max_privacy_unit_groups, name_sigmas[0].1, tau
+            )
+        });
         let filter_column = [(COUNT_DISTINCT_PID, (Some(tau.into()), None, vec![]))]
             .into_iter()
             .collect();
